@@ -86,8 +86,14 @@ def real_arrays(tier, rng):
                                          z0=z0, tilt=tilt,
                                          seed=rng.randrange(999),
                                          baseline=rng.choice([0., 3e-10]))
-                    arrs.append(("synthetic" if noise or tilt
-                                 else "synthetic_clean", quant(c["force"])))
+                    lab = "synthetic" if noise or tilt else "synthetic_clean"
+                    if lab == "synthetic_clean":
+                        # where the tip position crosses zero
+                        napp = int(np.sum(np.asarray(c["segment"]) == 0))
+                        true = int(np.argmin(np.abs(
+                            np.linspace(z0, -1e-6, napp))))
+                        lab = f"synthetic_clean:{true}"
+                    arrs.append((lab, quant(c["force"])))
     for name in synth.RECORDED + [
             "fmt-jpk-fd_single_bad_2017-01-16_4.jpk-force"]:
         c = synth.load_recorded(name)
@@ -103,8 +109,8 @@ def real_arrays(tier, rng):
            ("short5", quant(np.linspace(0, 1e-9, 5))),
            ("short7", quant(np.r_[0, 0, 0, 0, 1e-10, 5e-10, 1e-9]))]
     if tier == "quick":
-        clean = [a for a in arrs if a[0] == "synthetic_clean"]
-        other = [a for a in arrs if a[0] != "synthetic_clean"]
+        clean = [a for a in arrs if a[0].startswith("synthetic_clean")]
+        other = [a for a in arrs if not a[0].startswith("synthetic_clean")]
         arrs = clean + rng.sample(other, 8) + arrs[-4:]
     return arrs, deg
 
@@ -116,11 +122,16 @@ def env_case(job):
     rec.update({"n": int(force.size), "method": method, "label": label,
                 "degenerate": bool(degenerate), "pow2_same": True,
                 "shift_same": True, "scale_close": True,
-                "bigshift_close": True,
+                "bigshift_close": True, "clean": False, "err_permille": 0,
                 "fallback_ok": True})
     if rec["raised"]:
         return rec
     n = force.size
+    if label.startswith("synthetic_clean:"):
+        # distance to the true contact, in thousandths of the array length
+        rec["clean"] = True
+        rec["err_permille"] = int(round(
+            1000 * abs(rec["cp"] - int(label.split(":")[1])) / n))
     if degenerate:
         npre = int(np.argmax(force))
         rec["fallback_ok"] = rec["cp"] in (n // 2, npre // 2)
